@@ -13,7 +13,8 @@ AGGREGATORS = {
     'min': Aggregator(lambda values, fstr, row: min(values)),
     'multiply': Aggregator(
         lambda values, fstr, row: functools.reduce(lambda x, y: x*y, values)),
-    'constant': Aggregator(lambda values, fstr, row: fstr),
+    # a copy per row: a mutable constant ([] / {}) must not be one object shared by all rows
+    'constant': Aggregator(lambda values, fstr, row: copy.deepcopy(fstr)),
     'join': Aggregator(
         lambda values, fstr, row: fstr.join([str(x) for x in values])),
     'format': Aggregator(lambda values, fstr, row: fstr.format(**row)),
